@@ -36,7 +36,8 @@ def gen_program(rng, nclasses=None):
     n = nclasses or rng.choice([1, 2, 3, 4, 6])
     classes = []
     for i in range(n):
-        c = ClassSpec("Lr/K%d;" % i)
+        # the last of >= 3 classes gets a name with the characters D8/R8 and package-info classes use ('-', '$')
+        c = ClassSpec("Lr/K%d;" % i if not (n >= 3 and i == n - 1) else rng.choice(["Lr/K%d;" % i, "Lr/-$$Lambda$K%d$x;" % i, "Lr/package-info;", "Lr/my-lib/K%d;" % i, "Lr/Ké%d;" % i]))
         # every kind of class can carry code: interfaces (static / default methods, <clinit>), annotations, enums, abstract and synthetic classes
         c.access = rng.choice([W.ACC_PUBLIC] * 4 + [0, W.ACC_PUBLIC | W.ACC_FINAL, W.ACC_PUBLIC | W.ACC_ABSTRACT, W.ACC_PUBLIC | W.ACC_INTERFACE | W.ACC_ABSTRACT,
                                W.ACC_INTERFACE | W.ACC_ABSTRACT, W.ACC_PUBLIC | W.ACC_INTERFACE | W.ACC_ABSTRACT | W.ACC_ANNOTATION, W.ACC_PUBLIC | W.ACC_FINAL | W.ACC_ENUM,
@@ -52,6 +53,10 @@ def gen_program(rng, nclasses=None):
         for j in range(rng.randrange(1, 4)):
             static = rng.random() < 0.5
             c.methods.append(MethodSpec(c.name, rng.choice(["m", "run", "shared"]) + str(j), rng.choice(["V", "I"]), rng.choice([(), ("I",), ("J", "I")]), static))
+        if rng.random() < 0.3:
+            # a method whose name is one of the string constants the code loads (reflection-style: getMethod("hello"))
+            c.methods.append(MethodSpec(c.name, rng.choice(["hello", "shared", "x", "shared2"]), "V", ("J", "J", "J"), True))
+            c.methods[-1].stub = True
         if rng.random() < 0.25:
             c.methods.append(MethodSpec(c.name, "<clinit>", "V", (), True))
         if rng.random() < 0.25:
@@ -66,6 +71,9 @@ def gen_program(rng, nclasses=None):
     all_ifields = [(c.name, f[0], f[1]) for c in classes for f in c.ifields]
     for c in classes:
         for m in c.methods:
+            if getattr(m, "stub", False):
+                m.insns.append(("return-void",))
+                continue
             pos = 0
             nins = rng.choice([1, 3, 6, 12])
             for _ in range(nins):
@@ -121,11 +129,11 @@ def gen_program(rng, nclasses=None):
                     ins = (name, rng.randrange(8), W.Str(s))
                     site = ("string", name, s)
                 elif r < 0.85:
-                    t = rng.choice([k.name for k in classes] + ["Lext/E;", "Lext/Other;"])
+                    t = rng.choice([k.name for k in classes] + ["Lext/E;", "Lext/Other;", "Lext/-$$Lambda$E$1;", "Lext/my-lib/X;"])
                     ins = ("new-instance", rng.randrange(8), W.Typ(t))
                     site = ("new-instance", "new-instance", t)
                 elif r < 0.95:
-                    t = rng.choice([k.name for k in classes] + ["Lext/E;", "[I", "[[J", "[Lr/K0;", "[Lext/E;", "Ljava/lang/String;", "[[Lr/K0;", "[[[Lext/E;", "[[Lr/K1;", "[Lr/K1;"])
+                    t = rng.choice([k.name for k in classes] + ["Lext/E;", "[I", "[[J", "[Lr/K0;", "[Lext/E;", "Ljava/lang/String;", "[[Lr/K0;", "[[[Lext/E;", "[[Lr/K1;", "[Lr/K1;", "Lext/package-info;", "[Lext/-$$Lambda$E$1;", "Lext/my-lib/X;"])
                     ins = ("const-class", rng.randrange(8), W.Typ(t))
                     site = ("const-class", "const-class", t)
                 else:
